@@ -233,10 +233,27 @@ func (p *Pkg) canon(fd *ast.FuncDecl) string {
 	for i, l := range locals {
 		ren[l.o] = fmt.Sprintf("l%d", i)
 	}
+	// field names used as keys of composite literals are not variables (go/parser resolves them
+	// against a same-named local all the same)
+	isKey := map[*ast.Ident]bool{}
+	ast.Inspect(fd.Body, func(n ast.Node) bool {
+		if cl, ok := n.(*ast.CompositeLit); ok {
+			if _, isMap := cl.Type.(*ast.MapType); !isMap {
+				for _, e := range cl.Elts {
+					if kv, ok := e.(*ast.KeyValueExpr); ok {
+						if id, ok := kv.Key.(*ast.Ident); ok {
+							isKey[id] = true
+						}
+					}
+				}
+			}
+		}
+		return true
+	})
 	ast.Inspect(fd.Body, func(n ast.Node) bool {
 		switch x := n.(type) {
 		case *ast.Ident:
-			if x.Obj != nil {
+			if x.Obj != nil && !isKey[x] {
 				if nn, ok := ren[x.Obj]; ok {
 					x.Name = nn
 				}
